@@ -63,6 +63,10 @@ chk("C19", "E2", "explicit enumeration of parser-produced trees x indent strings
     "Every tree of the C16 spaces and every operator x spelling x literal (incl. escapes) x 4 indents x 3 levels: byte-equal to the reference rendering, no panic, deterministic; Selector.String on constructed selectors.",
     "Reference renderer reads tree fields only; %q == strconv.Quote.", "DESIGN.md 5 C19")
 
+chk("C20", "E6", "complete synchronous product walk of two finite rule graphs (grammar.peg read by an own PEG-syntax reader vs the g table and on*/callon* functions of grammar.go read with go/ast), plus exhaustive rune-domain comparison of every character class",
+    "Complete, unbounded: all 37 rules, every expression node pair, every literal/flag/label/reference, all 1,114,112 runes for each of the character classes, every action and predicate body after go/printer normalisation, parameter lists and wrapper argument order; nothing left unmatched.",
+    "Structural equality of the shipped pair; positions/display strings reported not judged; the generic PEG engine is covered behaviourally by C15/C10/C11.", "DESIGN.md 5 C20")
+
 REASON_NOT_BUILT = "check not built yet (in progress) - will be decided by bounded exhaustive exploration, see DESIGN.md"
 
 def main():
@@ -96,6 +100,7 @@ def main():
             "add_only": True,
         },
         "engines": [
+            {"name": "E6", "path": "/verif/mc/pegcmp/compare.go", "serves_properties": ["C20"], "kind_free_text": "E6 rule-graph product walker (grammar.peg vs grammar.go)"},
             {"name": "E2", "path": "/verif/mc/checks/c15.go", "serves_properties": ["C10","C11","C15","C16","C19"], "kind_free_text": E2},
             {"name": "E1", "path": "/verif/mc/checks/e1.go", "serves_properties": ["C01","C02","C03","C04","C05","C06","C07","C08","C09","C17","C18"], "kind_free_text": E1},
         ],
